@@ -44,45 +44,81 @@ func checkC04(c RoutingCase) (vs []*Violation) {
 		}
 		full := s.Full(r)
 		where := c.Router + " " + req.Method + " " + strconv.Quote(req.Path) + " ran " + r.ID + " [" + full.String() + "]"
-		b := model.MatchPath(full, req.Path)
-		if b.Match == model.N {
+		exact := true
+		// judge compares the bindings with the URL text, the URL path being read as path; unesc maps
+		// the model's text back to what the handler is expected to see
+		judge := func(path string, unesc func(string) string, strict bool) (out []*Violation, skip bool) {
+			b := model.MatchPath(full, path)
+			if b.Match == model.N {
+				if strict {
+					return []*Violation{viol("", "%s: the route does not match the path read this way", where)}, false
+				}
+				return nil, true // C01's business
+			}
+			// exactly the declared names
+			want := append([]string{}, full.VarNames()...)
+			var got []string
+			for k := range o.Params {
+				got = append(got, k)
+			}
+			sort.Strings(want)
+			sort.Strings(got)
+			if strings.Join(want, ",") != strings.Join(got, ",") {
+				return []*Violation{viol("", "%s: bound names %v, declared %v", where, got, want)}, false
+			}
+			for _, sgm := range full {
+				if !sgm.IsVar() {
+					continue
+				}
+				g, w := o.Params[sgm.Name], unesc(b.Params[sgm.Name])
+				if b.Loose[sgm.Name] {
+					exact = false
+					if sgm.Kind == model.Tail && strings.TrimSuffix(g, "/") != strings.TrimSuffix(w, "/") {
+						out = append(out, viol("", "%s: tail %s bound to %q, URL remainder is %q", where, sgm.Name, g, w))
+					}
+					continue
+				}
+				if g != w {
+					out = append(out, viol("", "%s: %s bound to %q, the URL text at its position is %q", where, sgm.Name, g, w))
+				}
+			}
+			// round trip up to the trailing slash
+			if back := model.Substitute(full, o.Params); normSlash(back) != normSlash(req.Path) {
+				out = append(out, viol("", "%s: substituting %s gives %q, not the request path", where, paramsString(o.Params), back))
+			}
+			return out, false
+		}
+		v1, skip := judge(req.Path, func(s string) string { return s }, false)
+		if skip {
 			labels = append(labels, "ran_on_nonmatching_path(C01)")
-			continue // C01's business
-		}
-		labels = append(labels, "bound_"+strconv.Itoa(len(full.VarNames()))+"_vars")
-		// exactly the declared names
-		want := append([]string{}, full.VarNames()...)
-		var got []string
-		for k := range o.Params {
-			got = append(got, k)
-		}
-		sort.Strings(want)
-		sort.Strings(got)
-		if strings.Join(want, ",") != strings.Join(got, ",") {
-			vs = append(vs, viol("", "%s: bound names %v, declared %v", where, got, want))
 			continue
 		}
-		exact := true
-		for _, sgm := range full {
-			if !sgm.IsVar() {
-				continue
-			}
-			g, w := o.Params[sgm.Name], b.Params[sgm.Name]
-			if b.Loose[sgm.Name] {
-				exact = false
-				if sgm.Kind == model.Tail && strings.TrimSuffix(g, "/") != strings.TrimSuffix(w, "/") {
-					vs = append(vs, viol("", "%s: tail %s bound to %q, URL remainder is %q", where, sgm.Name, g, w))
+		if raw := harness.EscapeKthSlash(req.Path, req.EscSlash); req.EscSlash > 0 && raw != "" {
+			// a slash that travelled as %2F: the URL path is the decoded one (a separator like any
+			// other) or the escaped one (part of its segment) - the bindings must fit one reading
+			labels = append(labels, "escaped_slash_on_the_request_line")
+			where += " (request line " + strconv.Quote(raw) + ")"
+			if len(v1) > 0 {
+				const mark = "\x01"
+				marked, n := []byte(req.Path), 0
+				for i := 1; i < len(marked); i++ {
+					if marked[i] == '/' {
+						if n++; n == req.EscSlash {
+							marked[i] = mark[0]
+						}
+					}
 				}
-				continue
-			}
-			if g != w {
-				vs = append(vs, viol("", "%s: %s bound to %q, the URL text at its position is %q", where, sgm.Name, g, w))
+				v2, _ := judge(string(marked), func(s string) string { return strings.ReplaceAll(s, mark, "/") }, true)
+				if len(v2) == 0 {
+					v1 = nil
+				}
 			}
 		}
-		// round trip up to the trailing slash
-		if back := model.Substitute(full, o.Params); normSlash(back) != normSlash(req.Path) {
-			vs = append(vs, viol("", "%s: substituting %s gives %q, not the request path", where, paramsString(o.Params), back))
+		vs = append(vs, v1...)
+		if len(v1) > 0 {
+			continue
 		}
+		labels = append(labels, "bound_"+strconv.Itoa(len(full.VarNames()))+"_vars")
 		nvars := len(full.VarNames())
 		special := false
 		for _, sgm := range full {
@@ -108,6 +144,11 @@ func TestC04(t *testing.T) {
 	rapid.Check(t, func(t *rapid.T) {
 		harness.ResetGlobals()
 		c := genRoutingCase(t, false)
+		for i := range c.Reqs {
+			if n := strings.Count(c.Reqs[i].Path, "/") - 1; n > 0 && rapid.IntRange(0, 7).Draw(t, "escslash") == 0 {
+				c.Reqs[i].EscSlash = rapid.IntRange(1, n).Draw(t, "whichslash")
+			}
+		}
 		report(t, "C04", "TestC04", c, checkC04(c))
 	})
 }
